@@ -326,6 +326,8 @@ def check_event_wait(ck, fi):
             wrapvars.add(n.ast.targets[0].id)
         elif n.kind == "stmt" and isinstance(n.ast, ast.Return) and n.ast.value is c:
             wrapvars.add("<returned>")
+        elif n.kind == "stmt" and isinstance(n.ast, ast.Expr) and isinstance(n.ast.value, ast.Call) and isinstance(n.ast.value.func, ast.Attribute) and n.ast.value.func.value is c:
+            wrapvars.add("<used in place>")  # e.g. with_timeout(...).add_done_callback(...): wrapped but not kept, so it cannot be what is returned
         else:
             raise AnalysisError("%s: with_timeout result in unknown position" % fi.site(c))
         a0, a1 = q.arg(c, 0, "timeout"), q.arg(c, 1, "future")
@@ -337,7 +339,8 @@ def check_event_wait(ck, fi):
         ck.ob("C34.event-wait", fi, c, recv == fut and all(len(b.args) == 1 and q.dotted(b.args[0]) in (fut, argn) for b in rm), "the waiter removes itself from the waiter set when it finishes (no residue)")
     for n, c, recv, body in cancel:
         cs = [b for b in body if isinstance(b.func, ast.Attribute) and b.func.attr == "cancel"]
-        ck.ob("C34.event-wait", fi, c, recv in wrapvars and all(q.dotted(b.func.value) == fut for b in cs), "when the timeout wrapper finishes it cancels the inner waiter (so it leaves the set)")
+        on_wrapper = recv in wrapvars or (recv is None and isinstance(c.func.value, ast.Call) and q.call_attr(c.func.value) == "with_timeout")
+        ck.ob("C34.event-wait", fi, c, on_wrapper and all(q.dotted(b.func.value) == fut for b in cs), "when the timeout wrapper finishes it cancels the inner waiter (so it leaves the set)")
 
     def cnt(sites):
         return node_counts(fi, lambda x: any(x is s for s in sites))
